@@ -259,6 +259,8 @@ def run(repo: Repo, tier: str) -> Report:
                    f"args = {[ast.unparse(a) for a in s.args]}", "args of gammastd_grp site", line=s.line)
     from ..rules import r_truthy
     r_truthy(rep, repo, "PixelAlgorithms", "spi", ["nodata"], "0 is a legitimate nodata value (it is the one the test-suite uses); a truth test silently replaces or drops it")
+    from ..rules import r_stateless
+    r_stateless(rep, repo, [('PixelAlgorithms', 'spi')])
     rep.floor("C07 obligations", len(rep.obls), 40)
     return rep
 
